@@ -33,7 +33,7 @@ def cfg(tier):
 def bounds(tier):
     c = cfg(tier)
     return {'T-all (durations symbolic through the cut, everything symbolic)': 'N in %s per order, DIM %s, K %s' % (c['tall'], list(c['dims']), list(c['K'])),
-            'T-grid (time variables concrete rationals)': 'N in %s' % (c['tgrid'],), 'flag settings': '%d (quick: pairwise covering array over the 8 flags; thorough: all 256 at N=1/K=1, triple-wise covering array elsewhere)' % len(c['flags']), 'K=64': 'N=1, DIM 1, T-grid',
+            'T-grid (time variables concrete rationals)': 'N in %s' % (c['tgrid'],), 'flag settings': '%d (quick: pairwise covering array over the 8 flags; thorough: all 256 at N=1/K=1/DIM 1, triple-wise covering array at DIM 1, pairwise at DIM 2)' % len(c['flags']), 'K=64': 'N=1, DIM 1, T-grid',
             'maps': 'QuadInv + identity spatial; identity time map; user maps on (order, DIM) %s' % [list(x) for x in c['gen']], 'energy weight': 'symbolic > 0 / literal 0 / symbolic <= 0', 'overloads': '3-cost, 2-cost'}
 
 
@@ -56,11 +56,12 @@ def tasks(tier, seed):
                 for K in c['K']:
                     if tier == 'quick' and (d == 2 and K != 2):
                         continue
-                    if tier == 'thorough' and ((d == 3 and N >= 3) or (o == 5 and N == 3 and (d > 1 or K > 2))):
-                        continue     # beyond what nlsat finishes in minutes (measured: single tasks > 45 min)
+                    if tier == 'thorough' and ((d == 3 and N >= 3) or (o == 5 and N == 3 and (d > 1 or K > 2)) or (d == 2 and K == 3)):
+                        continue     # beyond what nlsat finishes in minutes (measured: single tasks > 45 min); K=3 only at DIM 1
                     fl = c['flags']
-                    if tier == 'thorough' and not (N == 1 and K == 1):
-                        fl = X.TRIPLEWISE      # all 256 settings at N=1, K=1; every TRIPLE of flags in all its value combinations elsewhere
+                    if tier == 'thorough' and not (N == 1 and K == 1 and d == 1):
+                        # all 256 settings at N=1, K=1, DIM 1; every TRIPLE of flags in all value combinations at DIM 1, every pair at DIM 2
+                        fl = X.TRIPLEWISE if d == 1 else X.PAIRWISE
                     for i in range(0, len(fl), 8):
                         T.append({'name': 'T-all o%d d%d N%d K%d flags#%d' % (o, d, N, K, i // 8), 'order': o, 'dim': d, 'N': N, 'K': K, 'kind': 'ident', 'mode': 'all', 'flags': fl[i:i + 8], 'seed': seed, 'timeout': to})
             for N in c['tgrid'][o]:
